@@ -21,8 +21,10 @@ Layers: L1 (`get`, order, length), L2 (`insert_element`, every `t ≥ 3`), L3 (`
 L4 (in-order optimisation) are proved.  L3 exposes a defect of the code as shipped (an internal root is
 left without elements when a deletion of an absent key merges its two children; see
 `delete_asShipped_*`); the full statement is proved for the intended root collapse
-(`Tree.collapseAlways = true`), a guarded statement and the counterexamples for the shipped one.  The
-harness probes which variant the working tree implements and demands correspondence with that variant.
+(`Tree.collapseAlways = true`), a guarded statement and the counterexamples for the shipped one.  A second
+defect of the same kind (root left empty when `delete_exact` raised) is covered by `delete_exact_refines` /
+`delete_exact_unrepaired_loses_rootOk` (`Tree.collapseOnError`).  Both are repaired in the working tree
+(f381413, 90d7725); the correspondence check runs the model with both repairs as the reference.
 L5 (cursors): a cursor position is a split `done ++ rest` of the in-order listing (`CurInv`, a zipper over the
 parents stack); `next` / `prev` / `seek` / `seek_first` / `seek_last` and unparking after arbitrary mutations
 are proved to be navigation in that listing.
